@@ -164,6 +164,11 @@ where
         let slice_from = start - stored_len;
         let slice_to = (to - stored_len).min(pushed.len());
         let ptr = pushed.as_ptr();
+        #[cfg(anydb_verif)]
+        rawdb::verif_tap::emit(rawdb::verif_tap::Event::PtrRead {
+            addr: (ptr as usize).wrapping_add(slice_from * size_of::<T>()),
+            len: slice_to.saturating_sub(slice_from) * size_of::<T>(),
+        });
         let mut acc = init;
         let mut i = slice_from;
         while i < slice_to {
